@@ -218,6 +218,8 @@ struct Cell {
     cert_valid: bool,
     /// expected role string when authz and accepted
     expect_role: Option<&'static str>,
+    /// client role, authority mode with name check: the server name the client is told to expect
+    expect_name: &'static str,
 }
 
 impl Cell {
@@ -231,7 +233,7 @@ impl Cell {
         json!({
             "rodbus_is": self.role, "min_version": format!("1.{}", self.min - 10), "mode": self.mode,
             "authz": self.authz, "name_check": self.name_check, "peer_offers": self.offer.name(),
-            "peer_cert": self.peer_cert, "expect_accept": self.expect_accept(),
+            "peer_cert": self.peer_cert, "expect_accept": self.expect_accept(), "expected_server_name": if self.name_check { self.expect_name } else { "" },
         })
     }
 }
@@ -281,6 +283,7 @@ fn grid() -> Vec<Cell> {
                         peer_cert: cert,
                         cert_valid: if authz { valid_authz } else { valid_noauthz },
                         expect_role: if authz { role } else { None },
+                        expect_name: "",
                     });
                 }
                 // self-signed mode: the configured peer certificate is named per cell
@@ -301,6 +304,7 @@ fn grid() -> Vec<Cell> {
                         peer_cert: cert,
                         cert_valid: if authz { valid_authz } else { valid_noauthz },
                         expect_role: if authz { role } else { None },
+                        expect_name: "",
                     });
                 }
             }
@@ -323,8 +327,38 @@ fn grid() -> Vec<Cell> {
                         peer_cert: cert,
                         cert_valid: valid,
                         expect_role: None,
+                        expect_name: "test.com",
                     });
                 }
+            }
+            // the expected name in other shapes: IP literals are names too (they match only IP
+            // subject alternative names), DNS names compare case-insensitively
+            for (name, cert, valid) in [
+                ("127.0.0.1", "server_ok", false),
+                ("::1", "server_ok", false),
+                ("10.1.2.3", "server_ok", false),
+                ("wrong.com", "server_ok", false),
+                ("com", "server_ok", false),
+                ("sub.test.com", "server_ok", false),
+                ("TEST.COM", "server_ok", true),
+                ("127.0.0.1", "server_ip", true),
+                ("::1", "server_ip", true),
+                ("10.1.2.3", "server_ip", false),
+                ("test.com", "server_ip", false),
+                ("device", "server_ip", false),
+            ] {
+                v.push(Cell {
+                    role: "client",
+                    min,
+                    mode: "authority",
+                    authz: false,
+                    name_check: true,
+                    offer,
+                    peer_cert: cert,
+                    cert_valid: valid,
+                    expect_role: None,
+                    expect_name: name,
+                });
             }
             for (cert, valid) in [
                 ("ss_server", true),
@@ -342,6 +376,7 @@ fn grid() -> Vec<Cell> {
                     peer_cert: cert,
                     cert_valid: valid,
                     expect_role: None,
+                    expect_name: "",
                 });
             }
         }
@@ -507,7 +542,7 @@ async fn run_client_cell(c: &Cell, slow: u32) -> Result<(bool, Option<u8>), Stri
     });
     let tls_config = if c.mode == "authority" {
         TlsClientConfig::full_pki(
-            if c.name_check { Some("test.com".to_string()) } else { None },
+            if c.name_check { Some(c.expect_name.to_string()) } else { None },
             &path("ca1", "pem"),
             &path("client_operator", "pem"),
             &path("client_operator", "key"),
